@@ -686,7 +686,7 @@ fn gen_names(rng: &mut Rng, base: &str) -> Vec<NameSrc> {
     v
 }
 
-pub fn gen_fea(rng: &mut Rng, d: &design::Design, risky: bool) -> FeaSrc {
+pub fn gen_fea(rng: &mut Rng, d: &design::Design, risky: bool, with_size: bool) -> FeaSrc {
     let mut f = FeaSrc::default();
     // explicit records: distinct (id, language) keys
     let id_pool: [u16; 8] = [256, 257, 258, 260, 263, 9, 7, 13];
@@ -753,7 +753,8 @@ pub fn gen_fea(rng: &mut Rng, d: &design::Design, risky: bool) -> FeaSrc {
                 if rng.chance(1, 2) { gen_names(rng, "CV sample") } else { vec![] },
                 (0..n_params).map(|k| gen_names(rng, &format!("CV param {k}"))).collect()));
         }
-        if rng.chance(1, 4) { f.size = Some(gen_names(rng, "Size menu")); }
+        let want_size = rng.chance(1, 4);
+        if want_size && with_size { f.size = Some(gen_names(rng, "Size menu")); }
     }
     if risky && rng.chance(1, 3) {
         // FEA overrides a reserved record that fvar may reuse (the default instance's subfamily name)
@@ -901,11 +902,14 @@ pub fn dump_fea_refs(bytes: &[u8]) -> S {
     S::kv("refs", out)
 }
 
-/// `c18fea`: the property's domain; `c18feax`: additionally the two configurations recorded as findings
-/// (ElidedFallbackNameID naming a reserved id that only the compiler's own name table has; `nameid 2` overridden in FEA).
+/// `c18fea`: the configurations the current tree handles. `--size` additionally generates `size` features with a
+/// `sizemenuname` in variable fonts (finding: the menu name id is not remapped; enable once fixes/C18-fea-remap.patch lands).
+/// `c18feax`: everything, including the configurations recorded as findings (`sizemenuname`; ElidedFallbackNameID naming a
+/// reserved id that only the compiler's own name table has; `nameid 2` overridden in FEA while fvar reuses id 2).
 pub fn run_fea(stream: &'static str, args: &Args) {
     let seed = args.seed;
     let risky = stream == "c18feax";
+    let size_flag = risky || args.rest.iter().any(|a| a == "--size");
     unsafe { std::env::set_var("SOURCE_DATE_EPOCH", "1700000000") };
     crate::run_cases(stream, args, move |i| {
         let mut rng = Rng::for_case(seed, stream, i);
@@ -927,7 +931,8 @@ pub fn run_fea(stream: &'static str, args: &Args) {
             let other = d.masters[d.masters.len() - 1].loc.clone();
             d.instances.push(design::Instance { family: d.family.clone(), style: "Heavy".into(), postscript: None, loc: other });
         }
-        let fea = gen_fea(&mut rng, &d, risky);
+        // a static font has no shift, so `size` is always fine there
+        let fea = gen_fea(&mut rng, &d, risky, size_flag || is_static);
         d.features = Some(fea.text(&d));
         let tmp = build::tmpdir(stream);
         let ds = write::write_design(tmp.path(), &d);
